@@ -1,0 +1,77 @@
+//go:build verif
+
+package hsms
+
+import (
+	"context"
+	"net"
+)
+
+// This file exists only under the `verif` build tag. It exports a seam for the external
+// verification harness (/verif, properties C07/C08): it adds code only and changes no production
+// behaviour.
+
+// VerifRuntimeHooks are callbacks the harness can place around the synchronous commits a transport
+// performs through its TransportRuntime. Each runs on the transport goroutine that makes the call
+// and may block: that widens, deterministically, the window between "the transport has the
+// socket" and "the state commit has landed". A nil callback is skipped.
+type VerifRuntimeHooks struct {
+	BeforeTCPUp          func(conn net.Conn) // before the NotConnected -> NotSelected commit
+	AfterTCPUp           func(conn net.Conn) // after TCPUp returned, still on the calling goroutine
+	BeforeCommitSelected func()              // before the NotSelected -> Selected CAS
+}
+
+// verifHookedRuntime is the connection itself (every TransportRuntime method and every optional
+// capability the transports discover by type assertion is promoted from the embedded *connection)
+// with the hooked methods overridden to call the hooks around the real method.
+type verifHookedRuntime struct {
+	*connection
+
+	hooks VerifRuntimeHooks
+}
+
+func (r *verifHookedRuntime) TCPUp(conn net.Conn) {
+	if r.hooks.BeforeTCPUp != nil {
+		r.hooks.BeforeTCPUp(conn)
+	}
+
+	r.connection.TCPUp(conn)
+
+	if r.hooks.AfterTCPUp != nil {
+		r.hooks.AfterTCPUp(conn)
+	}
+}
+
+func (r *verifHookedRuntime) CommitSelected() bool {
+	if r.hooks.BeforeCommitSelected != nil {
+		r.hooks.BeforeCommitSelected()
+	}
+
+	return r.connection.CommitSelected()
+}
+
+// verifRuntimeGate decorates the connection's transport: every method delegates to the real
+// transport; Start hands the transport the hooked runtime instead of the bare connection.
+type verifRuntimeGate struct {
+	transport
+
+	rt TransportRuntime
+}
+
+func (g *verifRuntimeGate) Start(ctx context.Context, _ TransportRuntime) error {
+	return g.transport.Start(ctx, g.rt)
+}
+
+// VerifHookRuntime makes c's transport see a TransportRuntime whose TCPUp / CommitSelected run the
+// given hooks around the real methods. It must be called before Open (the transports bind the
+// runtime once, on their first Start). It reports false when c is not the engine's connection.
+func VerifHookRuntime(c Connection, hooks VerifRuntimeHooks) bool {
+	cc, ok := c.(*connection)
+	if !ok || cc.tr == nil {
+		return false
+	}
+
+	cc.tr = &verifRuntimeGate{transport: cc.tr, rt: &verifHookedRuntime{connection: cc, hooks: hooks}}
+
+	return true
+}
